@@ -22,7 +22,7 @@ from ..workloads.puppetctl import Puppet, PeerError, proc_stat, wait_state
 ID = 'C10'
 LEVEL = 'fault_enumeration'
 RULE = ('operation sequences over {isalive, wait, kill(sig), terminate(False/True), close(False/True), sendeof, expect(EOF), send, '
-        'read_nonblocking, with-block left by exception, del + gc} x child dispositions {normal, ignores HUP+INT, ignores '
+        'read_nonblocking, with-block left by exception, del + gc} x child dispositions {normal, ignores HUP only, ignores HUP+INT, ignores '
         'HUP+INT+TERM, stopped, already exited, exits mid-sequence} on the pty transport (ALL sequences up to the tier bound, '
         'random longer ones) and {isalive, close, send, read, expect(EOF), with, del} on fd and socket transports. After every '
         'operation: I1 liveness claims vs /proc (identity by start time), I2 dead and reaped after terminate(force=True) / '
@@ -38,7 +38,7 @@ REQUIRED = ['sequences', 'operations', 'invariant_I1', 'invariant_I2', 'invarian
 
 PTY_OPS = ['isalive', 'wait', 'kill0', 'killTERM', 'killCONT', 'terminate', 'terminateF', 'closeNF', 'close', 'sendeof',
            'expect_eof', 'send', 'read', 'with_exc', 'del']
-DISPS = ['normal', 'ignhup', 'ignall', 'stopped', 'exited', 'exits-mid']
+DISPS = ['normal', 'ignhup', 'ignall', 'stopped', 'exited', 'exits-mid', 'ignhuponly']
 
 
 def nfds():
@@ -82,6 +82,12 @@ def judge_pty(ctx, op, ret, exc, acc, case):
             out.append(('reaped-child-reported-alive', 'isalive() returned True but the child has been reaped'))
         if ret is False and running:
             out.append(('running-child-reported-dead', 'isalive() returned False but /proc shows the child %s' % st[0]))
+    if op in ('terminate', 'terminateF') and exc is None:
+        # what terminate() says about the child is a liveness claim as well
+        if ret is True and running:
+            out.append(('terminate-true-but-child-running', '%s returned True but /proc shows the child %s' % (op, st[0])))
+        if ret is False and gone:
+            out.append(('terminate-false-but-child-reaped', '%s returned False although pexpect itself has reaped the child' % op))
     if c.terminated and running:
         out.append(('running-child-reported-terminated', 'terminated=True but /proc shows state %s (after %s)' % (st[0], op)))
     # I2
@@ -232,7 +238,7 @@ def settle(ctx, op):
 def pty_sequence(case, acc):
     disp, seq = case['disp'], case['seq']
     opts = {'normal': [], 'ignhup': ['ignhup'], 'ignall': ['ignhup', 'ignterm'], 'stopped': [], 'exited': [],
-            'exits-mid': []}[disp]
+            'exits-mid': [], 'ignhuponly': ['ignhuponly']}[disp]
     pup = Puppet(opts=opts)
     ctx = Ctx()
     ctx.child = None
